@@ -15,6 +15,7 @@ COMMON = ["-DZSTD_LEGACY_SUPPORT=1", "-DZSTD_DISABLE_ASM -DZSTD_NO_UNUSED_FUNCTI
 EXTRA = {
     "C01": ["-DHUF_FORCE_DECOMPRESS_X1", "-DDYNAMIC_BMI2=0"],
     "C02": ["-DHUF_FORCE_DECOMPRESS_X1", "-DZSTD_FORCE_DECOMPRESS_SEQUENCES_SHORT", "-DDYNAMIC_BMI2=0"],
+    "C04": ["-DHUF_FORCE_DECOMPRESS_X2", "-DHUF_FORCE_DECOMPRESS_X1", "-DDYNAMIC_BMI2=0"],
     "C05": ["-DDYNAMIC_BMI2=0"], "C06": ["-DDYNAMIC_BMI2=0"], "C07": ["-DDYNAMIC_BMI2=0", "-DHUF_FORCE_DECOMPRESS_X1"],
     "C08": ["-DHUF_FORCE_DECOMPRESS_X1", "-DDYNAMIC_BMI2=0"], "C09": ["-DHUF_FORCE_DECOMPRESS_X1", "-DZSTD_FORCE_DECOMPRESS_SEQUENCES_SHORT"],
     "C10": ["-DDYNAMIC_BMI2=0"], "C13": ["-DDYNAMIC_BMI2=0"], "C14": ["-DDYNAMIC_BMI2=0"], "C15": ["-DDYNAMIC_BMI2=0"],
